@@ -2,6 +2,7 @@ package main
 
 import (
 	"bytes"
+	"encoding/base64"
 	"encoding/json"
 	"fmt"
 	"os"
@@ -645,11 +646,41 @@ func writeJSONIndent(path string, v interface{}) error {
 	return os.WriteFile(path, append(b, '\n'), 0o644)
 }
 
+// readable adds a text rendering next to every base64 input of a sample plan.
+func readable(v interface{}) {
+	m, ok := v.(map[string]interface{})
+	if !ok {
+		return
+	}
+	dec := func(x interface{}) interface{} {
+		s, ok := x.(string)
+		if !ok {
+			return nil
+		}
+		b, err := base64.StdEncoding.DecodeString(s)
+		if err != nil {
+			return nil
+		}
+		return clip(b, 400)
+	}
+	if t := dec(m["input"]); t != nil {
+		m["input_text"] = t
+	}
+	if l, ok := m["inputs"].([]interface{}); ok {
+		var ts []interface{}
+		for _, x := range l {
+			ts = append(ts, dec(x))
+		}
+		m["inputs_text"] = ts
+	}
+}
+
 func samplesOf(raw []json.RawMessage) []interface{} {
 	var out []interface{}
 	for _, r := range raw {
 		var v interface{}
 		json.Unmarshal(r, &v)
+		readable(v)
 		out = append(out, v)
 		if len(out) == 3 {
 			break
